@@ -133,3 +133,20 @@ def rule_E(ck, owners, rule="E"):
             if bad:
                 rec.finding(rule + "4", "%s:%s[%s]" % (fn.replace("w_", ""), other, ck.catkey()),
                             "%s performs %s (expected only %s for this source category) at %s" % (fn, other, want, tu.where(sm, bad[0])), config=tu.cfg)
+
+
+def rule_EQ(ck, rule="EQ1"):
+    """allocator-extended construction: the new element's allocator is the one given (C08 for elements)"""
+    tu, rec = ck.tu, ck.rec
+    if not (tu.ak.stateful and not tu.ak.always_equal):
+        return
+    for fn, m in tu.meta.items():
+        if not m.get("given_alloc") or not tu.has(fn):
+            continue
+        sm = tu.S(fn)
+        aid = sm.final.get((tu.arg(fn, "aid"), 8))
+        if aid is None:
+            from .core import AnalysisBroken
+            raise AnalysisBroken("%s: %s does not record the given allocator" % (tu.cfg, fn))
+        ck.eq(rule, fn, "get_allocator() of the constructed element == the allocator argument", tu.obs(fn, "post", "id"), aid, Facts(),
+              key="%s:allocator" % fn.replace("w_", ""))
